@@ -258,3 +258,9 @@ def run(ctx):
     from . import C17
     from .common import shared
     shared(ctx, lambda c: C17.domain_of(c, ['PedersenGens::<P>::commit']), 'R-C17-1', 'R-C06-3')
+    # R-C06-4 (= R-C17-1 / R-C17-3 for the witness constructors): the prover compares the witness's *stored* extension degree with the
+    # statement's and never looks at the openings again, so "matching extension degree" is only as good as the constructor invariant
+    # "every opening has as many blinding factors as the stored degree says" (and a witness constructor that refuses a valid witness
+    # leaves the prover nothing to accept)
+    shared(ctx, lambda c: C17.domain_of(c, ['RangeWitness::init', 'CommitmentOpening::r_len']), 'R-C17-1', 'R-C06-4')
+    shared(ctx, lambda c: C17.stored_fields(c, only={'RangeWitness::init': ['openings', 'extension_degree'], 'CommitmentOpening::new': ['v', 'r']}), 'R-C17-3', 'R-C06-4')
